@@ -2212,4 +2212,229 @@ theorem recvFrom_fail_reply (r : Role) (d : Bool) (cap : Nat) (fs : List Frame) 
               · rename_i hf; rw [if_pos hf] at h; exact ih none h
               · rename_i hf; rw [if_neg hf] at h; exact ih _ h
 
+/-! ### complete delivery: a message is handed over only when every announced byte of every frame up
+to a FIN frame has arrived (the engine of `cut_never_short`) -/
+
+theorem skipPrev_rf {s s' : RState} (h : skipPrev s = .ok () s') : s'.readFinal = s.readFinal := by
+  simp only [skipPrev, skipN_eq] at h
+  repeat' split at h
+  all_goals first | cases h | skip
+  all_goals rfl
+
+theorem readHdr_rf {s s' : RState} {h : Hdr} (hh : readHdr s = .ok h s') : s'.readFinal = s.readFinal := by
+  simp only [readHdr] at hh
+  split at hh
+  · cases hh
+  · cases hh
+  · rename_i p s1 hr
+    obtain ⟨_, _, hs1⟩ := readN_ok_iff hr
+    split at hh
+    · cases hh; subst hs1; rfl
+    · cases hh
+
+theorem checkHdr_rf {h : Hdr} {s s' : RState} (hh : checkHdr h s = .ok () s') :
+    (isControl h.frameType = true → s'.readFinal = s.readFinal) ∧ (h.frameType = 0 → s.readFinal = false) ∧
+    (isControl h.frameType = false → s'.readFinal = h.final) := by
+  simp only [checkHdr, protoErr] at hh
+  repeat' split at hh
+  all_goals first | cases hh | skip
+  all_goals simp_all [continuationFrame, isControl, isData, CloseMessage, PingMessage, PongMessage, TextMessage, BinaryMessage]
+  all_goals (repeat' constructor) <;> (intros; first | omega | simp_all)
+
+theorem readLength_rf {h : Hdr} {s s' : RState} (hh : readLength h s = .ok () s') : s'.readFinal = s.readFinal := by
+  simp only [readLength, protoErr] at hh
+  repeat' split at hh
+  all_goals first | cases hh | skip
+  · rename_i p s1 hrd; obtain ⟨_, _, hs1⟩ := readN_ok_iff hrd; subst hs1; rfl
+  · rename_i p s1 hrd _; obtain ⟨_, _, hs1⟩ := readN_ok_iff hrd; subst hs1; rfl
+  · rfl
+
+theorem readMask_rf {h : Hdr} {s s' : RState} (hh : readMask h s = .ok () s') : s'.readFinal = s.readFinal := by
+  simp only [readMask, protoErr] at hh
+  repeat' split at hh
+  all_goals first | cases hh | skip
+  · rename_i p s1 hrd; obtain ⟨_, _, hs1⟩ := readN_ok_iff hrd; subst hs1; rfl
+  · rfl
+
+theorem sendCtl_rf (op : Nat) (p : Bytes) (s : RState) : (sendCtl op p s).readFinal = s.readFinal := by
+  unfold sendCtl; split <;> rfl
+
+theorem controlFrame_rf {h : Hdr} {s s' : RState} {ft : Nat} (hh : controlFrame h s = .ok ft s') :
+    s'.readFinal = s.readFinal := by
+  simp only [controlFrame] at hh
+  split at hh
+  · cases hh
+  · cases hh
+  · rename_i p s1 hp
+    have h1 : s1.readFinal = s.readFinal := by
+      simp only [readCtlPayload] at hp
+      split at hp
+      · split at hp
+        · cases hp
+        · cases hp
+        · rename_i q s2 hrd
+          obtain ⟨_, _, hs2⟩ := readN_ok_iff hrd
+          cases hp; subst hs2; rfl
+      · cases hp; rfl
+    split at hh
+    · cases hh; exact h1
+    · split at hh
+      · cases hh; rw [sendCtl_rf]; exact h1
+      · exact absurd hh (handleCloseFrame_not_ok _ _ _ _)
+
+/-- What a successfully returned frame says about `readFinal`. -/
+theorem advanceFrame_ok_final {s s' : RState} {ft : Nat} (hh : advanceFrame s = .ok ft s') :
+    (ft = 0 → s.readFinal = false) ∧ ((ft = PingMessage ∨ ft = PongMessage) → s'.readFinal = s.readFinal) := by
+  unfold advanceFrame at hh
+  obtain ⟨_, s1, h1, hh⟩ := bind_ok hh
+  obtain ⟨hd, s2, h2, hh⟩ := bind_ok hh
+  obtain ⟨_, s3, h3, hh⟩ := bind_ok hh
+  obtain ⟨_, s4, h4, hh⟩ := bind_ok hh
+  obtain ⟨_, s5, h5, hh⟩ := bind_ok hh
+  have r1 := skipPrev_rf h1
+  have r2 := readHdr_rf h2
+  obtain ⟨c1, c2, c3⟩ := checkHdr_rf h3
+  have r4 := readLength_rf h4
+  have r5 := readMask_rf h5
+  split at hh
+  · rename_i hdata
+    obtain ⟨hft, hs', _⟩ := dataFrame_ok hh
+    subst hs'
+    refine ⟨fun h0 => ?_, fun hp => ?_⟩
+    · rw [← r1, ← r2]; exact c2 (by rw [← hft]; exact h0)
+    · exfalso
+      rw [hft] at hp
+      simp only [Bool.or_eq_true, beq_iff_eq, isData, continuationFrame, TextMessage, BinaryMessage] at hdata
+      simp only [PingMessage, PongMessage] at hp
+      omega
+  · rename_i hnd
+    have hr0 : 0 ≤ s5.readRemaining := by
+      obtain ⟨_, _, _, r2', h7⟩ := readHdr_ok' h2
+      obtain ⟨_, _, r3', _, _⟩ := checkHdr_ok h3
+      obtain ⟨_, _, r4', _⟩ := readLength_ok h4 (r3'.trans r2') h7
+      obtain ⟨_, _, r5'⟩ := readMask_ok h5
+      rw [r5']; exact r4'
+    obtain ⟨_, _, _, hft, hpp⟩ := controlFrame_ok hh hr0
+    have r6 := controlFrame_rf hh
+    refine ⟨fun h0 => ?_, fun _ => ?_⟩
+    · exfalso
+      rw [h0] at hpp; simp [PingMessage, PongMessage] at hpp
+    · have hc : isControl hd.frameType = true := by
+        rw [← hft]
+        rcases hpp with h | h <;> simp [h, isControl, PingMessage, PongMessage, CloseMessage]
+      rw [r6, r5, r4, c1 hc, r2, r1]
+
+/-- bytes handed out + bytes still announced = total announced for this message, nothing wrapped -/
+def Exact (acc : Bytes) (s : RState) : Prop :=
+  0 ≤ s.readRemaining ∧ (acc.length : Int) + s.readRemaining = s.readLength ∧ s.readLength < 2 ^ 63
+
+theorem readAllLoop_complete (fuel : Nat) (acc : Bytes) (s s' : RState) (data : Bytes)
+    (hinv : s.readErr = none → Exact acc s)
+    (h : readAllLoop fuel acc s = .ok (data, none) s') :
+    (data.length : Int) = s'.readLength ∧ s'.readFinal = true ∧ s'.readRemaining = 0 ∧ s'.readErr = none := by
+  induction fuel generalizing s acc with
+  | zero => simp [readAllLoop] at h
+  | succ n ih =>
+    simp only [readAllLoop] at h
+    split at h
+    · cases h
+    · rename_i hnone
+      obtain ⟨h0, hsum, hlt⟩ := hinv hnone
+      split at h
+      · rename_i hpos
+        split at h
+        · cases h
+        · rename_i hn
+          simp only [List.length_take] at hn h
+          have hnle : (min s.readRemaining.toNat s.input.length : Int) ≤ s.readRemaining := by omega
+          refine ih _ _ ?_ h
+          intro _
+          refine ⟨?_, ?_, hlt⟩
+          · show 0 ≤ s.readRemaining - _; omega
+          · show ((acc ++ _).length : Int) + (s.readRemaining - _) = s.readLength
+            split <;> simp [maskBytes_length, List.length_take] <;> omega
+      · rename_i hnpos
+        have hr0 : s.readRemaining = 0 := by omega
+        split at h
+        · rename_i hfin
+          cases h
+          exact ⟨by omega, hfin, hr0, hnone⟩
+        · split at h
+          · cases h
+          · rename_i e s1 _
+            cases n with
+            | zero => simp [readAllLoop] at h
+            | succ k => rw [readAllLoop_err k acc _ e rfl] at h; cases h
+          · rename_i ft s1 hok
+            obtain ⟨eff, _, r0, rlt, hcase⟩ := advanceFrame_ok hok
+            split at h
+            · cases n with
+              | zero => simp [readAllLoop] at h
+              | succ k => rw [readAllLoop_err k acc _ .internal rfl] at h; cases h
+            · refine ih _ _ ?_ h
+              intro _
+              rcases hcase with ⟨_, hrl, hnn, _⟩ | ⟨_, hr, hrl⟩
+              · have hsumEq := wrap64_add_nonneg (by omega) hlt r0 rlt (by rw [← hrl]; exact hnn)
+                exact ⟨r0, by rw [hrl, hsumEq]; omega, by rw [hrl]; exact wrap64_lt _⟩
+              · exact ⟨r0, by rw [hr, hrl]; omega, by rw [hrl]; exact hlt⟩
+
+theorem nextReaderLoop_exact (fuel : Nat) (s s' : RState) (ty : Nat)
+    (hrf : s.readFinal = true) (hrl : s.readLength = 0)
+    (h : nextReaderLoop fuel s = .ok ty s') : Exact [] s' := by
+  induction fuel generalizing s with
+  | zero => simp [nextReaderLoop] at h
+  | succ n ih =>
+    simp only [nextReaderLoop] at h
+    split at h
+    · cases h
+    · split at h
+      · cases h
+      · cases h
+      · rename_i ft s1 hok
+        obtain ⟨eff, _, r0, rlt, hcase⟩ := advanceFrame_ok hok
+        obtain ⟨f0, fpp⟩ := advanceFrame_ok_final hok
+        split at h
+        · rename_i hty
+          cases h
+          rcases hcase with ⟨_, hrl', hnn, _⟩ | ⟨hp, _, _⟩
+          · have hz0 : (0 : Int) ≤ s.readLength := by rw [hrl]; decide
+            have hz1 : s.readLength < 2 ^ 63 := by rw [hrl]; decide
+            have hsumEq := wrap64_add_nonneg hz0 hz1 r0 rlt (by rw [← hrl']; exact hnn)
+            exact ⟨r0, by rw [hrl', hsumEq, hrl]; simp, by rw [hrl']; exact wrap64_lt _⟩
+          · exfalso
+            simp only [Bool.or_eq_true, beq_iff_eq, TextMessage, BinaryMessage] at hty
+            simp only [PingMessage, PongMessage] at hp
+            omega
+        · rename_i hnty
+          rcases hcase with ⟨hd, _, _, _⟩ | ⟨hp, _, hrl'⟩
+          · exfalso
+            simp only [Bool.or_eq_true, beq_iff_eq, not_or] at hnty
+            rcases hd with h0 | h1 | h2
+            · have := f0 h0; rw [hrf] at this; cases this
+            · exact hnty.1 h1
+            · exact hnty.2 h2
+          · exact ih s1 (by rw [fpp hp, hrf]) (by rw [hrl', hrl]) h
+
+/-- **Complete delivery.** From a state with no message in progress, `ReadMessage` delivers a message
+(`e = none`) only when every byte announced by every frame of that message has been read
+(`data.length = readLength`, the running total of the announced frame lengths, which never wrapped)
+and the last frame read was final; the connection is then again between messages. For every byte
+stream. -/
+theorem readMessage_complete (s s' : RState) (m : Msg) (hrf : s.readFinal = true)
+    (h : readMessage s = .ok (m, none) s') :
+    (m.data.length : Int) = s'.readLength ∧ s'.readFinal = true ∧ s'.readRemaining = 0 ∧ s'.readErr = none := by
+  simp only [readMessage] at h
+  split at h
+  · cases h
+  · cases h
+  · rename_i ty s1 hnr
+    split at h
+    · cases h
+    · cases h
+    · rename_i hra
+      cases h
+      simp only [nextReader] at hnr
+      have hex := nextReaderLoop_exact _ { s with readLength := 0 } s1 ty hrf rfl hnr
+      exact readAllLoop_complete _ [] s1 _ _ (fun _ => hex) hra
+
 end Oryx.WsRead
